@@ -57,6 +57,7 @@ func c20(c *Ctx) {
 	c20Detector(c)
 	c20FrameTrimmed(c)
 	c20ReportWhenQuiet(c)
+	c20FrameObjectsPerFrame(c)
 	checksumOddOctetHigh(c, "checksum-odd-octet-high", "A probe of odd length with a non-zero last octet (ping -s 57) fails verification and is dropped before its knock is queued.")
 }
 
@@ -814,56 +815,8 @@ func c20Detector(c *Ctx) {
 		}
 	}
 	c.Check(okAdd, "detector", "record added to its group's set", p.Pos(kd.Pos()), "", "the received knock record is not added to the Knocks set of the group found for it")
-	// the port list may be assembled in the flush closure itself or in a helper it calls (group.portList())
-	var plFns []*ssa.Function
-	{
-		seenPL := map[*ssa.Function]bool{}
-		var addPL func(f *ssa.Function, d int)
-		addPL = func(f *ssa.Function, d int) {
-			if f == nil || seenPL[f] || f.Blocks == nil || d > 2 {
-				return
-			}
-			seenPL[f] = true
-			plFns = append(plFns, f)
-			for _, a := range f.AnonFuncs {
-				addPL(a, d)
-			}
-			for _, call := range Calls(f) {
-				if cal := call.Common().StaticCallee(); cal != nil && InRepo(cal) && PkgOf(cal) == PkgOf(kd) {
-					addPL(cal, d+1)
-				}
-			}
-		}
-		for _, an := range Anon(kd) {
-			addPL(an, 0)
-		}
-	}
-	// port list: make([]string, Count()) and filled by index inside Each of the same set with three type arms
-	for _, an := range plFns {
-		for _, b := range an.Blocks {
-			for _, in := range b.Instrs {
-				ms, ok := in.(*ssa.MakeSlice)
-				if !ok || !strings.Contains(types.TypeString(ms.Type(), nil), "string") {
-					continue
-				}
-				lenS := Render(ms.Len)
-				// in a helper that is handed the set (knockPortLabels(k.Knocks)): what every call site passes
-				if cc, isCall := ms.Len.(*ssa.Call); isCall && len(cc.Call.Args) == 1 {
-					if pr, isP := cc.Call.Args[0].(*ssa.Parameter); isP {
-						idx := paramIdx(pr)
-						for _, g := range p.FuncsIn(canaryRel) {
-							for _, call := range Calls(g) {
-								if call.Common().StaticCallee() == an && idx < len(call.Common().Args) {
-									lenS = strings.Replace(lenS, "(p"+fmt.Sprint(idx)+")", "("+Render(call.Common().Args[idx])+")", 1)
-								}
-							}
-						}
-					}
-				}
-				c.Check(strings.Contains(lenS, "UniqueSet).Count(") && strings.Contains(lenS, ".Knocks"), "port-list", "sized by the set", p.InstrPos(ms), lenS, "the reported port list is not sized by the group's Knocks.Count(): "+lenS)
-			}
-		}
-	}
+	plFns := c20PortListFns(kd)
+	c20PortListSized(c, "port-list", kd, plFns)
 	// label arms
 	labels := map[string]bool{}
 	for _, an := range plFns {
@@ -913,4 +866,65 @@ func c20Detector(c *Ctx) {
 		}
 	}
 	c.Floor("port-list", 6, "size, three arms, two port labels")
+}
+
+// c20PortListFns: the flush closures of the knock detector and the helpers of the package they call.
+func c20PortListFns(kd *ssa.Function) []*ssa.Function {
+	var plFns []*ssa.Function
+	{
+		seenPL := map[*ssa.Function]bool{}
+		var addPL func(f *ssa.Function, d int)
+		addPL = func(f *ssa.Function, d int) {
+			if f == nil || seenPL[f] || f.Blocks == nil || d > 2 {
+				return
+			}
+			seenPL[f] = true
+			plFns = append(plFns, f)
+			for _, a := range f.AnonFuncs {
+				addPL(a, d)
+			}
+			for _, call := range Calls(f) {
+				if cal := call.Common().StaticCallee(); cal != nil && InRepo(cal) && PkgOf(cal) == PkgOf(kd) {
+					addPL(cal, d+1)
+				}
+			}
+		}
+		for _, an := range Anon(kd) {
+			addPL(an, 0)
+		}
+	}
+	return plFns
+}
+
+// c20PortListSized: the reported port list is make([]string, Knocks.Count()) of the set that is then walked with Each(i, …):
+// every index the walk produces is within the list (index safety of the detector goroutine, which has no recover) and no
+// probed port is left out.
+func c20PortListSized(c *Ctx, rule string, kd *ssa.Function, plFns []*ssa.Function) {
+	p := c.P
+	// port list: make([]string, Count()) and filled by index inside Each of the same set with three type arms
+	for _, an := range plFns {
+		for _, b := range an.Blocks {
+			for _, in := range b.Instrs {
+				ms, ok := in.(*ssa.MakeSlice)
+				if !ok || !strings.Contains(types.TypeString(ms.Type(), nil), "string") {
+					continue
+				}
+				lenS := Render(ms.Len)
+				// in a helper that is handed the set (knockPortLabels(k.Knocks)): what every call site passes
+				if cc, isCall := ms.Len.(*ssa.Call); isCall && len(cc.Call.Args) == 1 {
+					if pr, isP := cc.Call.Args[0].(*ssa.Parameter); isP {
+						idx := paramIdx(pr)
+						for _, g := range p.FuncsIn(canaryRel) {
+							for _, call := range Calls(g) {
+								if call.Common().StaticCallee() == an && idx < len(call.Common().Args) {
+									lenS = strings.Replace(lenS, "(p"+fmt.Sprint(idx)+")", "("+Render(call.Common().Args[idx])+")", 1)
+								}
+							}
+						}
+					}
+				}
+				c.Check(strings.Contains(lenS, "UniqueSet).Count(") && strings.Contains(lenS, ".Knocks"), rule, "sized by the set", p.InstrPos(ms), lenS, "the reported port list is not sized by the group's Knocks.Count(): "+lenS)
+			}
+		}
+	}
 }
